@@ -181,7 +181,7 @@ def static_units(ctx, insts):
         d = c17.inst_defines(t, uu, sg)
         bits = int(t.replace('uint', '').replace('int', '').replace('_t', ''))
         d['IT_MAX'] = str((1 << (bits - (1 if sg else 0))) - 1) + ('u' if not sg else '')
-        common = dict(defines=d, inst=t, timeout=150, signed_wrap=True, nonprop_cls=['overflow', 'conversion'])
+        common = dict(defines=d, inst=t, timeout=400, signed_wrap=True, nonprop_cls=['overflow', 'conversion'])
         units.append(Unit('parallel_for_staticImpl.remap', 'intwp', 'specs/c14_states.c', 'psi_remap', expect=[r'postcondition\.4'], **common))
         units.append(Unit('parallel_for_staticImpl.callerChunk', 'intwp', 'specs/c14_states.c', 'psi_callerChunk', expect=[r'postcondition\.1'], **common))
         units.append(Unit('parallel_for_staticImpl.callerRun', 'intwp', 'specs/c14_states.c', 'psi_callerRun', expect=[r'postcondition\.1'], **common))
